@@ -14,6 +14,7 @@ import (
 	"time"
 
 	"verif/harness/internal/core"
+	"verif/harness/internal/corpus"
 )
 
 // C19: model checking of the real bin/newpolicy.sh.  The script runs
@@ -108,7 +109,7 @@ git config --local user.email "user@example.com"
 
 func (b *c19Box) baseEnv() []string {
 	return []string{"HOME=" + filepath.Join(b.dir, "home"),
-		"PATH=" + filepath.Join(b.dir, "bin") + ":/repo/bin:" + filepath.Join(core.VerifDir, ".build", "bin") + ":" + os.Getenv("PATH"),
+		"PATH=" + filepath.Join(b.dir, "bin") + ":"+corpus.RepoDir+"/bin:" + filepath.Join(core.VerifDir, ".build", "bin") + ":" + os.Getenv("PATH"),
 		"VERIF_MAILLOG=" + filepath.Join(b.dir, "mail.log"), "LANG=C", "GIT_CONFIG_NOSYSTEM=1"}
 }
 
@@ -165,7 +166,7 @@ type c19RunRes struct {
 func (b *c19Box) run(killAt int, tag string) c19RunRes {
 	steplog := filepath.Join(b.dir, "ctrl", "steps-"+tag+".log")
 	os.Remove(steplog)
-	cmd := exec.Command("/repo/bin/newpolicy.sh")
+	cmd := exec.Command(corpus.RepoDir + "/bin/newpolicy.sh")
 	cmd.Dir = b.dir
 	cmd.Env = append(append([]string{}, b.env...), "BASH_ENV="+filepath.Join(b.dir, "hook.sh"), "VERIF_STEPLOG="+steplog,
 		"VERIF_CTRL="+filepath.Join(b.dir, "ctrl"))
